@@ -157,6 +157,9 @@ func unionSchema(t *rapid.T, o *SchemaOpts, depth int) ref.Schema {
 		u.Branches = []ref.Schema{x, ref.Prim("null")}
 	case form == 7:
 		u.Branches = []ref.Schema{x}
+		if o.AnyUnion && rapid.IntRange(0, 3).Draw(t, "nullOnly") == 0 {
+			u.Branches = []ref.Schema{ref.Prim("null")} // a union of just null is legal
+		}
 	default:
 		// several distinct branches: distinct unnamed kinds, named types may repeat the kind
 		seen := map[string]bool{}
